@@ -14,7 +14,6 @@ set_option linter.unusedTactic false
 set_option linter.unreachableTactic false
 namespace Bridge
 variable {α : Type} [Field α] [LinearOrder α] [IsStrictOrderedRing α]
-  [HasSqrt α] [HasExp α] [HasLog α] [HasSin α] [HasCos α] [HasAsin α] [HasRpow α] [HasPi α] [HasRound α] [HasFloor α]
 
 theorem rel_triangle_area (T : Sample.Tri α) :
     Sample.triArea T = Gen.rel_triangle_area (T.x2 - T.x1) (T.y2 - T.y1) (T.x3 - T.x1) (T.y3 - T.y1) := by
